@@ -190,7 +190,7 @@ def gen_note(r,depth,in_div):
         return ('noten',r.randrange(20,100),gen_len(r),r.choice([None,None,50,100,120]),r.choice([None,None,30,127]),r.choice([None,None,0,3]))
     L=gen_len(r)
     v=r.choice([None,None,None,40,127,200])
-    tm=r.choice([None,None,None,0,2,7]); o=r.choice([None,None,None,3,6])
+    tm=r.choice([None,None,None,0,2,7]); o=r.choice([None,None,None,3,6,0,10])
     q=r.choice([None,None,None,50,100,110])
     if tm is None and o is not None: tm=0   # an empty timing slot followed by an octave slot is not part of the grammar
     return ('note',r.choice("cdefgab"),r.choice([0,0,0,1,-1,2]),r.random()<0.1,L,q,v,tm,o)
@@ -308,6 +308,11 @@ def multitrack_source(rng, malformed=False):
     if rng.random() < 0.12:
         # a verbatim End-of-Track written by the source in the middle of a track: the chunk must still END with End-of-Track
         parts.insert(rng.randrange(1, len(parts)), rng.choice(["DirectSMF($FF,$2F,$00)", "DirectSMF($FF,$2F,0) c", "DirectSMF(255,47,0) r8 d"]))
+    if rng.random() < 0.25:
+        # comments of every form between the commands (also the empty range comment and the `/** … */` form), in front of the time base too
+        for _ in range(rng.randrange(1, 4)):
+            parts.insert(rng.randrange(0, len(parts) + 1), rng.choice(["/**/", "/* x */", "/** doc */", "// c\n", "/***/", "/**/ /**/", "/* TimeBase(77) */"]))
+    if rng.random() < 0.15: parts.insert(0, rng.choice(["/**/", "/**/", "/***/", "/* */", "/**/ /**/"]))      # … the first thing of all
     if malformed:
         junk = ["!", "ZZZ", "}", "]", "'", "[", "{", "(", "\u3042", "\x00", "$", "~{x}", "Sub{", "#?1", "TR(", "v", "@", "y", ",,,", "^^"]
         for _ in range(rng.randrange(1, 4)):
